@@ -125,6 +125,10 @@ impl Default for ServeOptions {
 
 /// Runtime for query execution, kept off the HTTP runtime. See the module docs.
 fn query_runtime() -> &'static tokio::runtime::Runtime {
+    #[cfg(qe_verif)]
+    if let Some(rt) = crate::verif::rt::query_runtime_override() {
+        return rt;
+    }
     static RT: OnceLock<tokio::runtime::Runtime> = OnceLock::new();
     RT.get_or_init(|| {
         tokio::runtime::Builder::new_multi_thread()
@@ -1587,6 +1591,69 @@ fn stable_hash(s: &str) -> u64 {
         h = h.wrapping_mul(0x100000001b3);
     }
     h
+}
+
+/// Simulator access to a node without a listener: the real state, the real
+/// router behind real hyper HTTP/1 framing, the real discovery and probe steps.
+#[cfg(qe_verif)]
+pub mod verif {
+    use super::*;
+
+    pub fn node(
+        node_id: NodeId,
+        address: &str,
+        discovery: Discovery,
+        flight_address: Option<String>,
+    ) -> Arc<NodeState> {
+        let membership = Arc::new(Membership::new(node_id, address.to_string(), discovery));
+        membership.set_self_flight(flight_address.clone());
+        Arc::new(NodeState::new(
+            node_id,
+            address.to_string(),
+            flight_address,
+            membership,
+        ))
+    }
+    pub fn install_context(state: &Arc<NodeState>, ctx: ExecutionContext) {
+        *state.context.write() = Some(Arc::new(ctx));
+    }
+    pub fn clear_context(state: &Arc<NodeState>) {
+        *state.context.write() = None;
+    }
+    pub fn install_load_error(state: &Arc<NodeState>, msg: &str) {
+        *state.load_error.write() = Some(msg.to_string());
+    }
+    pub fn set_shutting_down(state: &Arc<NodeState>, on: bool) {
+        state.shutting_down.store(on, Ordering::Relaxed);
+    }
+    /// Serve one connection exactly as `spawn_connection` does, over any stream.
+    pub async fn serve_stream<S>(stream: S, state: Arc<NodeState>)
+    where
+        S: tokio::io::AsyncRead + tokio::io::AsyncWrite + Unpin + Send + 'static,
+    {
+        let service = service_fn(move |req| {
+            let state = state.clone();
+            async move { Ok::<_, std::convert::Infallible>(route(req, state).await) }
+        });
+        let _ = http1::Builder::new()
+            .keep_alive(true)
+            .serve_connection(TokioIo::new(stream), service)
+            .await;
+    }
+    pub async fn resolve_once(state: &Arc<NodeState>) {
+        super::resolve_once(state).await
+    }
+    pub async fn probe_once(state: &Arc<NodeState>, timeout: Duration) {
+        super::probe_once(state, timeout).await
+    }
+    pub fn participants(state: &Arc<NodeState>) -> Vec<crate::distributed::Participant> {
+        super::participants(state)
+    }
+    pub fn flight_service(
+        state: Arc<NodeState>,
+    ) -> impl arrow_flight::flight_service_server::FlightService {
+        crate::distributed::flight::verif_service(state)
+    }
 }
 
 #[cfg(test)]
